@@ -7,11 +7,27 @@ use std::future::Future;
 use std::pin::Pin;
 use std::task::{Context, Poll, Waker};
 
-/// `fwrite <maxlen> <vals> <script>`
-pub fn fwrite(w: &[&str]) -> Option<String> {
+/// The buffer handed to `with_buffer` for constructor tag `e` (empty), `c` (empty with capacity), `d` (dirty: 37
+/// bytes 0xAA), `D` (dirty: 613 bytes 0x5C); `n` is `new`.  A reader / writer must behave the same whatever the
+/// buffer it was given contains.
+fn ctor_buf(tag: &str) -> Option<Option<Vec<u8>>> {
+    Some(match tag {
+        "n" => None,
+        "e" => Some(Vec::new()),
+        "c" => Some(Vec::with_capacity(64)),
+        "d" => Some(vec![0xAA; 37]),
+        "D" => Some(vec![0x5C; 613]),
+        _ => return None
+    })
+}
+
+/// `fwrite <maxlen> <vals> <script>`; `fwriteb <ctor> …` constructs with `with_buffer`
+pub fn fwrite(w: &[&str]) -> Option<String> { fwrite_with("n", w) }
+pub fn fwriteb(w: &[&str]) -> Option<String> { fwrite_with(w.first()?, &w[1..]) }
+fn fwrite_with(ctor: &str, w: &[&str]) -> Option<String> {
     let [ml, vs, sc] = w else { return None };
     let (ml, vs, sc) = (ml.parse::<u32>().ok()?, parse_vals(vs)?, parse_script(sc)?);
-    let mut wr = Writer::new(Snk::new(sc));
+    let mut wr = match ctor_buf(ctor)? { None => Writer::new(Snk::new(sc)), Some(b) => Writer::with_buffer(Snk::new(sc), b) };
     wr.set_max_len(ml);
     let rs: Vec<String> = vs.iter().map(|v| show_write(&wr.write(v))).collect();
     let (snk, buf) = wr.into_parts();
@@ -19,10 +35,12 @@ pub fn fwrite(w: &[&str]) -> Option<String> {
 }
 
 /// `fread <maxlen> <nreads> <streamhex> <script>`
-pub fn fread(w: &[&str]) -> Option<String> {
+pub fn fread(w: &[&str]) -> Option<String> { fread_with("n", w) }
+pub fn freadb(w: &[&str]) -> Option<String> { fread_with(w.first()?, &w[1..]) }
+fn fread_with(ctor: &str, w: &[&str]) -> Option<String> {
     let [ml, n, st, sc] = w else { return None };
     let (ml, n, st, sc) = (ml.parse::<u32>().ok()?, n.parse::<usize>().ok()?, unhex(st)?, parse_script(sc)?);
-    let mut rd = Reader::new(Src::new(st, sc));
+    let mut rd = match ctor_buf(ctor)? { None => Reader::new(Src::new(st, sc)), Some(b) => Reader::with_buffer(Src::new(st, sc), b) };
     rd.set_max_len(ml);
     peak_reset();
     let mut rs = Vec::new();
@@ -36,12 +54,14 @@ pub fn fread(w: &[&str]) -> Option<String> {
 
 /// `aread <maxlen> <streamhex> <script> <acts>`; acts: `p` poll (calling `read()` if no future
 /// is alive), `d` drop the pending future.
-pub fn aread(w: &[&str]) -> Option<String> {
+pub fn aread(w: &[&str]) -> Option<String> { aread_with("n", w) }
+pub fn areadb(w: &[&str]) -> Option<String> { aread_with(w.first()?, &w[1..]) }
+fn aread_with(ctor: &str, w: &[&str]) -> Option<String> {
     let [ml, st, sc, acts] = w else { return None };
     let (ml, st, sc) = (ml.parse::<u32>().ok()?, unhex(st)?, parse_script(sc)?);
     let acts: Vec<char> = if *acts == "-" { Vec::new() } else { acts.chars().collect() };
     if acts.iter().any(|c| *c != 'p' && *c != 'd') { return None }
-    let mut rd = AsyncReader::new(Src::new(st, sc));
+    let mut rd = match ctor_buf(ctor)? { None => AsyncReader::new(Src::new(st, sc)), Some(b) => AsyncReader::with_buffer(Src::new(st, sc), b) };
     rd.set_max_len(ml);
     let mut cx = Context::from_waker(Waker::noop());
     peak_reset();
@@ -75,7 +95,9 @@ enum WAct { Write(usize), Sync, Poll, Drop }
 /// `awrite <maxlen> <vals> <script> <acts>`; acts: `w<i>` call `write(vals[i])` and poll once,
 /// `s` call `sync()` and poll once, `p` poll the pending future, `d` drop it.  `w` / `s` while a
 /// future is pending drop that future first (it borrows the writer).
-pub fn awrite(w: &[&str]) -> Option<String> {
+pub fn awrite(w: &[&str]) -> Option<String> { awrite_with("n", w) }
+pub fn awriteb(w: &[&str]) -> Option<String> { awrite_with(w.first()?, &w[1..]) }
+fn awrite_with(ctor: &str, w: &[&str]) -> Option<String> {
     let [ml, vs, sc, acts] = w else { return None };
     let (ml, vs, sc) = (ml.parse::<u32>().ok()?, parse_vals(vs)?, parse_script(sc)?);
     let acts: Vec<WAct> = split_list(acts).into_iter().map(|a| match a {
@@ -84,7 +106,7 @@ pub fn awrite(w: &[&str]) -> Option<String> {
         "d" => Some(WAct::Drop),
         _ => a.strip_prefix('w').and_then(|k| k.parse::<usize>().ok()).filter(|k| *k < vs.len()).map(WAct::Write)
     }).collect::<Option<_>>()?;
-    let mut wr = AsyncWriter::new(Snk::new(sc));
+    let mut wr = match ctor_buf(ctor)? { None => AsyncWriter::new(Snk::new(sc)), Some(b) => AsyncWriter::with_buffer(Snk::new(sc), b) };
     wr.set_max_len(ml);
     let mut cx = Context::from_waker(Waker::noop());
     let mut out: Vec<String> = Vec::new();
